@@ -554,6 +554,18 @@ class GCCHKPacker(Packer):
                 )
                 self.new_pack.abort()
                 return None
+        if self.new_pack._hash.hexdigest() in self._pack_collection._names:
+            # The repacked content is byte-identical to a pack that is
+            # already listed (its name is the content hash), e.g. every
+            # revision of the combined packs is also present in one of them:
+            # finishing it would rename it onto that pack's live files and
+            # allocate() would then refuse the duplicate name.  Nothing to do.
+            trace.mutter(
+                "repacked content is identical to the listed pack %s",
+                self.new_pack._hash.hexdigest(),
+            )
+            self.new_pack.abort()
+            return None
         self.pb.update("finishing repack", 6, 7)
         self.new_pack.finish()
         self._pack_collection.allocate(self.new_pack)
